@@ -172,11 +172,15 @@ fn parse_comments(tok: &str, nrec: usize) -> Result<Vec<(usize, Vec<u8>)>, Strin
     let mut out = vec![];
     for c in split_list(tok, ',') {
         let (p, h) = c.split_once(':').ok_or("comment needs pos:hex")?;
-        let pos: usize = parse(p)?;
+        // `eof:<hex>`: a comment line at the very end of the file that is NOT terminated by a newline
+        let pos: usize = if p == "eof" { usize::MAX } else { parse(p)? };
         let line = unhex(h)?;
         let printable = line.iter().all(|&c| c == b'\t' || ((0x20..=0x7e).contains(&c) && c != b'"'));
-        if pos > nrec || !printable || !(line.is_empty() || line[0] == b'#') {
+        if (pos > nrec && pos != usize::MAX) || !printable || !(line.is_empty() || line[0] == b'#') {
             return Err("comment outside the domain".into());
+        }
+        if pos == usize::MAX && (line.is_empty() || out.iter().any(|(q, _)| *q == usize::MAX)) {
+            return Err("eof comment must be one non-empty # line".into());
         }
         out.push((pos, line));
     }
@@ -192,6 +196,9 @@ fn with_comments(w: &[u8], comments: &[(usize, Vec<u8>)]) -> Result<Vec<u8>, Str
     let mut out = vec![];
     for i in 0..=lines.len() {
         for (p, c) in comments {
+            if *p == usize::MAX {
+                continue;
+            }
             if *p == i || (i == lines.len() && *p > i) {
                 out.extend_from_slice(c);
                 out.push(b'\n');
@@ -200,6 +207,11 @@ fn with_comments(w: &[u8], comments: &[(usize, Vec<u8>)]) -> Result<Vec<u8>, Str
         if i < lines.len() {
             out.extend_from_slice(lines[i]);
             out.push(b'\n');
+        }
+    }
+    for (p, c) in comments {
+        if *p == usize::MAX {
+            out.extend_from_slice(c); // no terminating newline
         }
     }
     Ok(out)
@@ -613,6 +625,14 @@ fn gen_comments(rng: &mut Rng, nrec: usize) -> String {
             format!("{}:{}", pos, hex(&line))
         })
         .collect();
+    let mut cs = cs;
+    if rng.chance(1, 5) {
+        // the file ends in a comment line without a terminating newline
+        let mut l = b"#".to_vec();
+        let k = rng.below(8);
+        l.extend(rng.seq(b"ab1 .-_\tx", k));
+        cs.push(format!("eof:{}", hex(&l)));
+    }
     cs.join(",")
 }
 
